@@ -137,13 +137,13 @@ type c04Op struct {
 }
 
 type c04Client struct {
-	id    int
-	ops   chan *c04Op
-	evs   []c04Ev
-	tx    interfaces.Transaction
-	txid  int
-	open  bool
-	stage atomic.Int64 // index of the op being executed, -1 when the client is done
+	id      int
+	ops     chan *c04Op
+	evs     []c04Ev
+	tx      interfaces.Transaction
+	txid    int
+	open    bool
+	stage   atomic.Int64 // index of the op being executed, -1 when the client is done
 	inBegin atomic.Int64 // UnixNano at which the current BeginTransaction was issued, 0 outside Begin
 }
 
@@ -294,6 +294,120 @@ func (cl *c04Client) exec(e *engine.EngineFacade, op *c04Op) {
 	}
 }
 
+// c04ClientLoop is the body of one client goroutine (a named function: the deadlock test
+// below recognises client goroutines by this frame).
+func c04ClientLoop(cl *c04Client, e *engine.EngineFacade, mode string, yseed int64, wg *sync.WaitGroup) {
+	defer wg.Done()
+	r := rand.New(rand.NewSource(yseed*131 + int64(cl.id)))
+	n := int64(0)
+	for op := range cl.ops {
+		n++
+		cl.stage.Store(n)
+		if mode == "free" {
+			switch r.Intn(10) {
+			case 0, 1, 2:
+				runtime.Gosched()
+			case 3:
+				time.Sleep(time.Duration(r.Intn(60)) * time.Microsecond)
+			case 4:
+				for i := 0; i < 200+r.Intn(2000); i++ {
+					_ = i
+				}
+			}
+		}
+		cl.exec(e, op)
+		close(op.done)
+	}
+	if cl.open { // leave nothing behind: the database must be released
+		cl.record(c04Ev{tx: cl.txid, kind: "rollback"}, func(ev *c04Ev) { ev.status = c04Status(cl.tx.Rollback()) })
+		cl.open = false
+	}
+	cl.stage.Store(-1)
+}
+
+// c04Parked counts the client goroutines that are PARKED on the isolation lock inside
+// BeginTransaction (goroutine wait reason sync.RWMutex.Lock/RLock or sync.Mutex.Lock — a
+// goroutine that has been woken but not yet scheduled is "runnable" and is not counted).
+func c04Parked() int {
+	buf := make([]byte, 1<<20)
+	for {
+		n := runtime.Stack(buf, true)
+		if n < len(buf) {
+			buf = buf[:n]
+			break
+		}
+		buf = make([]byte, 2*len(buf))
+	}
+	cnt := 0
+	for _, g := range strings.Split(string(buf), "\n\n") {
+		nl := strings.IndexByte(g, '\n')
+		if nl < 0 {
+			continue
+		}
+		hdr := g[:nl]
+		if !(strings.Contains(hdr, "[sync.RWMutex.Lock") || strings.Contains(hdr, "[sync.RWMutex.RLock") ||
+			strings.Contains(hdr, "[sync.Mutex.Lock") || strings.Contains(hdr, "[semacquire")) {
+			continue
+		}
+		if strings.Contains(g, "main.c04ClientLoop") && strings.Contains(g, "BeginTransaction") {
+			cnt++
+		}
+	}
+	return cnt
+}
+
+// goroutines abandoned by earlier hung repetitions stay parked for ever
+var c04Abandoned int
+
+// c04Await waits for done. It reports a deadlock when, on two looks 50 ms apart, every client
+// that is not finished is parked on the lock inside BeginTransaction: each client ends its
+// previous transaction before it begins the next, so nobody is left who could release the
+// lock. This does not depend on how fast anything runs. hangAfter is only a backstop.
+func c04Await(done chan struct{}, clients []*c04Client, hangAfter time.Duration) (hang bool, stuck string) {
+	deadline := time.Now().Add(hangAfter)
+	tick := time.NewTicker(50 * time.Millisecond)
+	defer tick.Stop()
+	strikes := 0
+	for {
+		select {
+		case <-done:
+			return false, ""
+		case <-tick.C:
+			unfinished, inBegin := 0, 0
+			for _, cl := range clients {
+				if cl.stage.Load() >= 0 {
+					unfinished++
+					if cl.inBegin.Load() != 0 {
+						inBegin++
+					}
+				}
+			}
+			dead := unfinished > 0 && inBegin == unfinished && c04Parked()-c04Abandoned == unfinished
+			if dead {
+				strikes++
+			} else {
+				strikes = 0
+			}
+			if strikes >= 2 || time.Now().After(deadline) {
+				var s []string
+				for _, cl := range clients {
+					if st := cl.stage.Load(); st >= 0 {
+						w := "running"
+						if cl.inBegin.Load() != 0 {
+							w = "parked in BeginTransaction"
+						}
+						s = append(s, fmt.Sprintf("client %d at its op #%d %s", cl.id, st, w))
+					}
+				}
+				if strikes >= 2 {
+					c04Abandoned += unfinished
+				}
+				return true, strings.Join(s, ", ")
+			}
+		}
+	}
+}
+
 // runRep runs the program once on a fresh engine; returns the history ordered by return
 // ticket, or hang=true with the clients that never finished.
 func runRepC04(ops []*c04Op, nclients int, mode string, yseed int64, waitMs int, hangAfter time.Duration) (hist []c04Ev, hang bool, stuck string, err error) {
@@ -316,34 +430,7 @@ func runRepC04(ops []*c04Op, nclients int, mode string, yseed int64, waitMs int,
 		cl := &c04Client{id: i, ops: make(chan *c04Op, nops[i]+1)}
 		clients[i] = cl
 		wg.Add(1)
-		go func() {
-			defer wg.Done()
-			r := rand.New(rand.NewSource(yseed*131 + int64(cl.id)))
-			n := int64(0)
-			for op := range cl.ops {
-				n++
-				cl.stage.Store(n)
-				if mode == "free" {
-					switch r.Intn(10) {
-					case 0, 1, 2:
-						runtime.Gosched()
-					case 3:
-						time.Sleep(time.Duration(r.Intn(60)) * time.Microsecond)
-					case 4:
-						for i := 0; i < 200+r.Intn(2000); i++ {
-							_ = i
-						}
-					}
-				}
-				cl.exec(e, op)
-				close(op.done)
-			}
-			if cl.open { // leave nothing behind: the database must be released
-				cl.record(c04Ev{tx: cl.txid, kind: "rollback"}, func(ev *c04Ev) { ev.status = c04Status(cl.tx.Rollback()) })
-				cl.open = false
-			}
-			cl.stage.Store(-1)
-		}()
+		go c04ClientLoop(cl, e, mode, yseed, &wg)
 	}
 	for _, op := range ops {
 		op.done = make(chan struct{})
@@ -360,69 +447,32 @@ func runRepC04(ops []*c04Op, nclients int, mode string, yseed int64, waitMs int,
 	}
 	finished := make(chan struct{})
 	go func() { wg.Wait(); close(finished) }()
-	// Everything has been handed out. No progress is possible any more when every client that is
-	// not done sits inside BeginTransaction (each client finishes its previous transaction before
-	// it begins the next, so nobody who could release the lock is left); that state, held for
-	// `quiet`, or no end after hangAfter, is reported as a hang.
-	const quiet = 400 * time.Millisecond
-	deadline := time.Now().Add(hangAfter)
-	tick := time.NewTicker(20 * time.Millisecond)
-	defer tick.Stop()
-wait:
-	for {
-		select {
-		case <-finished:
-			break wait
-		case <-tick.C:
-			now := time.Now()
-			allBlocked, any := true, false
-			for _, cl := range clients {
-				if cl.stage.Load() < 0 {
-					continue
-				}
-				any = true
-				if b := cl.inBegin.Load(); b == 0 || now.Sub(time.Unix(0, b)) < quiet {
-					allBlocked = false
-				}
-			}
-			if (any && allBlocked) || now.After(deadline) {
-				var s []string
-				for _, cl := range clients {
-					if st := cl.stage.Load(); st >= 0 {
-						w := "running"
-						if cl.inBegin.Load() != 0 {
-							w = "waiting in BeginTransaction"
-						}
-						s = append(s, fmt.Sprintf("client %d at its op #%d %s", cl.id, st, w))
-					}
-				}
-				// the engine and the stuck goroutines are abandoned
-				return nil, true, strings.Join(s, ", "), nil
-			}
-		}
+	if hang, stuck := c04Await(finished, clients, hangAfter); hang {
+		// the engine and the stuck goroutines are abandoned
+		return nil, true, stuck, nil
 	}
 	for _, cl := range clients {
 		hist = append(hist, cl.evs...)
 	}
 	// final observer: one read-only transaction after everything else, full scan
-	obs := &c04Client{id: nclients}
 	maxtx := 0
 	for _, ev := range hist {
 		if ev.tx > maxtx {
 			maxtx = ev.tx
 		}
 	}
+	obs := &c04Client{id: nclients, ops: make(chan *c04Op, 3)}
+	for _, op := range []*c04Op{{kind: "begin", ro: true, txid: maxtx + 1}, {kind: "scan"}, {kind: "commit"}} {
+		op.done = make(chan struct{})
+		obs.ops <- op
+	}
+	close(obs.ops)
+	var owg sync.WaitGroup
+	owg.Add(1)
+	go c04ClientLoop(obs, e, "sched", yseed, &owg)
 	obsDone := make(chan struct{})
-	go func() {
-		obs.exec(e, &c04Op{kind: "begin", ro: true, txid: maxtx + 1})
-		obs.exec(e, &c04Op{kind: "scan"})
-		obs.exec(e, &c04Op{kind: "commit"})
-		close(obsDone)
-	}()
-	select {
-	case <-obsDone:
-	case <-time.After(2 * time.Second):
-		// every client is done, so nobody is left who could release the lock
+	go func() { owg.Wait(); close(obsDone) }()
+	if hang, _ := c04Await(obsDone, []*c04Client{obs}, hangAfter); hang {
 		return nil, true, "all transactions have ended, yet a new read-only transaction cannot begin", nil
 	}
 	hist = append(hist, obs.evs...)
@@ -813,7 +863,7 @@ func runC04(c *Case, out func(string)) {
 	reps, _ := strconv.Atoi(hdrVal(c.Hdr, "reps", "1"))
 	yseed, _ := strconv.ParseInt(hdrVal(c.Hdr, "yseed", "1"), 10, 64)
 	waitMs, _ := strconv.Atoi(hdrVal(c.Hdr, "wait", "4"))
-	hangS, _ := strconv.Atoi(hdrVal(c.Hdr, "hang", "30"))
+	hangS, _ := strconv.Atoi(hdrVal(c.Hdr, "hang", "120"))
 	if reps < 1 {
 		reps = 1
 	}
